@@ -165,6 +165,17 @@ def run_job(job):
                     probe(kind, v + bytes(ext), "extended by %d zero bytes" % ext)
                     probe(kind, v + bytes(rnd.randrange(256) for _ in range(ext)), "extended by %d random bytes" % ext)
                     stats["len_probes"] += 2
+                # a byte inserted / removed INSIDE the encoding (at every field boundary; thorough: at every offset): the total
+                # length changes by one although nothing was appended at the end
+                bounds = sorted({o_ for _, o_, _, _ in sz.fields(kind)} | {o_ + l_ for _, o_, l_, _ in sz.fields(kind)})
+                offs = range(len(v) + 1) if tier == "thorough" and wi == 0 else bounds
+                for o_ in offs:
+                    for ins in (b"\x00", b"\x01", b"\x02", b"\xff", v[o_ - 1:o_] or b"\x03"):
+                        probe(kind, v[:o_] + ins + v[o_:], "byte 0x%s inserted at offset %d" % (ins.hex(), o_))
+                        stats["len_probes"] += 1
+                    if o_ < len(v):
+                        probe(kind, v[:o_] + v[o_ + 1:], "byte at offset %d removed" % o_)
+                        stats["len_probes"] += 1
                 probe(kind, v + other, "followed by a second valid encoding")
                 probe(kind, v + v[-1:], "last byte repeated")
                 probe(kind, v[:1] + v, "first byte duplicated")
